@@ -18,6 +18,9 @@ type World struct {
 	names []string
 	fns   []func()
 	Note  []string // free-form description of the run (samples in evidence)
+	// Finish functions run on the main goroutine after all tasks have ended
+	// (history checks).
+	Finish []func()
 }
 
 // Spawn registers a task. Tasks start parked; the scheduler picks the first.
@@ -88,6 +91,16 @@ func RunOne(seed uint64, explicit []uint64, build Build, wantTrace, wantTape boo
 		}(i)
 	}
 	wg.Wait()
+	for _, f := range w.Finish {
+		func() {
+			defer func() {
+				if r := recover(); r != nil {
+					simrt.Report("harness:finish-panic", fmt.Sprint(r))
+				}
+			}()
+			f()
+		}()
+	}
 	st := simrt.RunStats()
 	res := Result{
 		Seed: seed, Hash: simrt.TraceHash(), Steps: st.Steps, Switches: st.Switches,
